@@ -1048,3 +1048,12 @@ func VerifExtractColorKeepsInput(str string, prev *VerifAnsiState) bool {
 	extractColor(str, st, nil)
 	return verifFromState(*st) == before
 }
+
+// VerifParsedWalker: what option parsing makes of --walker / --walker-skip (the values readFiles gets).
+func VerifParsedWalker(args []string) (file bool, dir bool, hidden bool, follow bool, skip []string, err error) {
+	opts, err := ParseOptions(false, args)
+	if err != nil {
+		return false, false, false, false, nil, err
+	}
+	return opts.WalkerOpts.file, opts.WalkerOpts.dir, opts.WalkerOpts.hidden, opts.WalkerOpts.follow, opts.WalkerSkip, nil
+}
